@@ -3,7 +3,7 @@
     by a document that is not alias-free. *)
 From Coq Require Import List String Ascii Arith Bool NArith.
 From PintV Require Import Common.Bytes Model.Yaml Model.Parser Model.Routing Model.PromLoader
-     Proofs.C19_relaxed Proofs.C01_prom Proofs.C01_rule Proofs.C01_group.
+     Proofs.C19_relaxed Proofs.C01_prom Proofs.C01_rule Proofs.C01_merge Proofs.C01_group.
 Import ListNotations.
 Open Scope string_scope.
 Open Scope list_scope.
@@ -89,5 +89,60 @@ Proof.
     + intros k v H. cbn in H. inv_in H.
       * split; [psc|]. split; [intros X; discriminate X|]. intros _. psc.
       * split; [psc|]. split; [|intros X; exfalso; apply X; reflexivity]. intros _. split; [pmap|].
-        intros rn H. cbn in H. inv_in H; [exact r1_guard|exact r2_guard].
+        intros rn H. cbn in H. inv_in H; [left; exact r1_guard|left; exact r2_guard].
+Qed.
+
+(** ---- a document with a merge key (corpus/C01/merge_alias.yaml): `- &base {alert, expr, for, labels}` and
+    `- <<: *base` overriding alert and for ---- *)
+Definition m_lab := Mp "!!map" 9 7 388 [Sc "!!str" "severity" 9 7 439; Sc "!!str" "page" 9 17 439].
+Definition m_base := Mp "!!map" 4 5 262532 [Sc "!!str" "alert" 5 5 439; Sc "!!str" "A" 5 12 439; Sc "!!str" "expr" 6 5 439; Sc "!!str" "up == 0" 6 11 439;
+   Sc "!!str" "for" 7 5 439; Sc "!!str" "5m" 7 10 447; Sc "!!str" "labels" 8 5 439; m_lab].
+Definition m_mk := Sc "!!merge" "<<" 10 5 423.
+Definition m_mx := al "!!map" "base" 10 9 m_base.
+Definition m_post := [(Sc "!!str" "alert" 11 5 439, Sc "!!str" "B" 11 12 439); (Sc "!!str" "for" 12 5 439, Sc "!!str" "10m" 12 10 447)].
+Definition m_rule := Mp "!!map" 10 5 388 [m_mk; m_mx; Sc "!!str" "alert" 11 5 439; Sc "!!str" "B" 11 12 439; Sc "!!str" "for" 12 5 439; Sc "!!str" "10m" 12 10 447].
+Definition m_rules := Sq "!!seq" 4 3 388 [m_base; m_rule].
+Definition m_group := Mp "!!map" 2 3 388 [Sc "!!str" "name" 2 3 439; Sc "!!str" "g" 2 9 439; Sc "!!str" "rules" 3 3 439; m_rules].
+Definition m_root := Mp "!!map" 1 1 388 [Sc "!!str" "groups" 1 1 439; Sq "!!seq" 2 1 388 [m_group]].
+Definition w_merge_ok : node := Dc 1 1 388 [m_root].
+
+Lemma m_lab_plain : plain_below m_lab.
+Proof.
+  apply plain_below_intro.
+  - pmap. eexists [(_, _)]. split; [reflexivity|]. intros k v H. inv_in H; discriminate.
+  - intros c H. cbn in H. inv_in H; psc.
+Qed.
+
+Lemma m_base_plain : plain_below m_base.
+Proof.
+  apply plain_below_intro.
+  - pmap. eexists [(_, _); (_, _); (_, _); (_, _)]. split; [reflexivity|]. intros k v H. inv_in H; discriminate.
+  - intros c H. cbn in H. inv_in H; try psc. exact m_lab_plain.
+Qed.
+
+Lemma m_rule_guard : merge_rule_guard m_rule [] m_mk m_mx m_post m_base.
+Proof.
+  split; [|split; [reflexivity|split; [reflexivity|]]].
+  - pmap. eexists [(_, _); (_, _); (_, _)]. split; [reflexivity|]. intros k v H. inv_in H; discriminate.
+  - split; [repeat split; reflexivity|]. split; [repeat split; auto; discriminate|].
+    split; [exact (plain_self m_base m_base_plain)|]. split; [reflexivity|]. split.
+    + intros k v H. cbn in H. inv_in H; (split; [psc|]); (split; [try psc; try exact m_lab_plain|split; discriminate]).
+    + split.
+      * cbn. repeat constructor; cbn; intuition discriminate.
+      * intros k x H. cbn in H. inv_in H; (split; [psc|]); eexists; (split; [left; split; reflexivity|left; psc]).
+Qed.
+
+Theorem w_merge_guard : guards_doc w_merge_ok.
+Proof.
+  split; [reflexivity|]. exists m_root. split; [reflexivity|]. split.
+  - pmap. eexists [(_, _)]. split; [reflexivity|]. intros k v H. inv_in H; discriminate.
+  - intros k v H. cbn in H. inv_in H. split; [psc|]. split; [pmap|].
+    intros gn H. cbn in H. inv_in H. split.
+    + pmap. eexists [(_, _); (_, _)]. split; [reflexivity|]. intros k v H. inv_in H; discriminate.
+    + intros k v H. cbn in H. inv_in H.
+      * split; [psc|]. split; [intros X; discriminate X|]. intros _. psc.
+      * split; [psc|]. split; [|intros X; exfalso; apply X; reflexivity]. intros _. split; [pmap|].
+        intros rn H. cbn in H. inv_in H.
+        -- left. apply plain_rule_guard. exact m_base_plain.
+        -- right. exists [], m_mk, m_mx, m_post, m_base. exact m_rule_guard.
 Qed.
